@@ -1,10 +1,12 @@
 """C23 Peripheral latency skips only permitted events (structure)."""
 from .lib.match import *
+from .lib.witness import PRELUDE, run_witness
 
 SELECT = r'^bluetoe::link_layer::details::(connection_state_base|disarmable_connection_state)::|^bluetoe::link_layer::link_layer::(end_event|try_event_cancelation)$'
 UNITS = lambda u: u in ('w_inst_ll',) or u.startswith('t_link_layer_peripheral_latency') or u.startswith('t_link_layer_ll_peripheral')
 ALSO = [('C21', ('no-pullback-while-update-applied',))]   # a pulled-back event must not use connection parameters whose instant has not come: decided by C21's rule, run here as well
 CS = 'bluetoe::link_layer::details::connection_state_base::'
+EXACT = ('disarmable-selected',)   # decided by the compiler on witness declarations: not gated by the golden structure
 META = {
     'level': 'co-update: each of the four mutators of the connection state advances channel index (mod 37), event counter and elapsed time by the same number of events; '
              'listen-condition table: each configured feature is paired with its event flag in the decision that cancels latency; the number of skipped events is only ever reset to 0, incremented '
@@ -26,6 +28,35 @@ def addend_names(expr, fn):
 
 
 def run(chk, facts, tier):
+    chk.rule('disarmable-selected', 'a peripheral latency option (single configuration or runtime configuration set) that contains listen_if_pending_transmit_data in ANY of its configurations '
+             'gets the disarmable connection state (the planned, skipped-to event can be pulled back when data becomes pending); static_assert witnesses', floor=4)
+    src = PRELUDE + '''#include <cassert>
+#include <algorithm>
+#include <bluetoe/meta_tools.hpp>
+#include <bluetoe/meta_types.hpp>
+#include <bluetoe/ll_meta_types.hpp>
+#include <bluetoe/delta_time.hpp>
+#include <bluetoe/channel_map.hpp>
+#include <bluetoe/peripheral_latency.hpp>
+namespace wit {
+    namespace ll = bluetoe::link_layer;
+    using pl = ll::peripheral_latency;
+    using with    = ll::peripheral_latency_configuration< pl::listen_if_pending_transmit_data, pl::listen_if_unacknowledged_data >;
+    using without = ll::peripheral_latency_configuration< pl::listen_if_unacknowledged_data >;
+    template < class Option >
+    using state_t = ll::details::peripheral_latency_state< Option >;
+    template < class Option >
+    struct disarmable : std::is_base_of< ll::details::disarmable_connection_state< std::true_type, state_t< Option > >, state_t< Option > > {};
+}
+'''
+    obl = []
+    for key, opt, desc in (('single', 'wit::with', 'single configuration with the option'),
+                           ('set-all', 'wit::ll::peripheral_latency_configuration_set< wit::with, wit::with >', 'set, option in every configuration'),
+                           ('set-first', 'wit::ll::peripheral_latency_configuration_set< wit::with, wit::without >', 'set, option only in the first configuration'),
+                           ('set-last', 'wit::ll::peripheral_latency_configuration_set< wit::without, wit::without, wit::with >', 'set, option only in the last configuration')):
+        src += 'VERIF_ASSERT( "disarm:%s", wit::disarmable< %s >::value );\n' % (key, opt)
+        obl.append(('disarm:' + key, '%s: connection state is disarmable' % desc))
+    run_witness(chk, 'disarmable-selected', 'c23_disarm', src, obl)
     chk.rule('co-update', 'plan_next_connection_event_after_timeout, plan_next_connection_event, reset_connection_state and peripheral_latency_move_connection_event each store channel_index_, '
              'event_counter_ and time_since_last_event_ with the same event count; the channel index is reduced modulo max_number_of_data_channels', floor=4)
     chk.rule('listen-table', 'latency is cancelled exactly for: each peripheral_latency_feature<F>() paired with its own event flag, listen_always, or error_occured', floor=1)
